@@ -7,6 +7,7 @@ package main
 
 import (
 	"go/types"
+	"strconv"
 	"io/fs"
 	"path/filepath"
 	"sort"
@@ -190,6 +191,28 @@ func registerVFS(e *Engine) {
 			}
 		}
 		return nilIface
+	})
+	osf("os.TempDir", func(x *Exec, a []Value) Value {
+		if _, n := x.vfsResolve("/tmp", true); n == nil && x.vfs != nil {
+			x.vfs["/tmp"] = &vfsNode{kind: 'd'}
+		}
+		return mkStr("/tmp")
+	})
+	// os.MkdirTemp(dir, pattern): a fresh directory nobody else knows (names are numbered per path)
+	osf("os.MkdirTemp", func(x *Exec, a []Value) Value {
+		dir, pat := cstr(x, a[0]), cstr(x, a[1])
+		if dir == "" {
+			dir = "/tmp"
+		}
+		if _, n := x.vfsResolve(dir, true); n == nil {
+			x.vfs[filepath.Clean(dir)] = &vfsNode{kind: 'd'}
+		}
+		x.vfsTemp++
+		name := strings.Replace(pat, "*", "", 1) + "v" + strconv.Itoa(x.vfsTemp)
+		p := filepath.Join(dir, name)
+		x.vfsLog("os.MkdirTemp(" + p + ")")
+		x.vfs[p] = &vfsNode{kind: 'd'}
+		return TupleVal{mkStr(p), nilIface}
 	})
 	write := func(x *Exec, name string, data []*Term, trunc, create, app bool, pos int) (int, Value) {
 		rp, n := x.vfsResolve(name, true)
